@@ -50,6 +50,7 @@ EVENTS = [
     ('foot', 'A\\footnote{B} \\section{C}', {'pack': ''}, False),
     ('unkn', 'A \\foo \\begin{bar}', {'pack': '', 'unkn': True}, False),
     ('repl', 'so dass A', {'pack': '', 'repl': ['so dass & sodass\n']}, False),
+    ('replfile', 'B so dass A', {'pack': '', 'repl': 'FILE'}, False),
     ('defs', 'A \\zz $\\text{B}$', {'pack': '', 'defs': DEFS}, False),
     ('ml', '\\usepackage{babel} A \\foreignlanguage{german}{B} C \\foreignlanguage{german}{D} E', {'pack': '*', 'lang': 'en-GB'}, True),
     ('error', '$x \\begin{itemize} \\item[ \\verb|', {'pack': '*'}, False),
@@ -72,8 +73,10 @@ REQUESTS = [
     ('glsuse', {'language': 'en-GB', 'text': 'teh \\gls{a}'}),
     ('ru', {'language': 'ru-RU', 'text': '$x$ teh'}),
     ('cats', {'language': 'en-GB', 'text': 'teh', 'disabledCategories': 'C1', 'enabledCategories': 'C2'}),
+    ('repl', {'language': 'en-GB', 'text': 'so dass teh so dass'}),
 ]
-SERVER_ARGV = ['--lt-options', '~--disable X0 --enabledonly', '--single-letters', 'A|a||', '--equation-punctuation', 'all']
+SERVER_ARGV = ['--lt-options', '~--disable X0 --enabledonly', '--single-letters', 'A|a||', '--equation-punctuation', 'all', '--replace', 'ymcrepl17.txt',
+               '--define', 'ymcdefs17.tex']
 
 
 def srv_answer(text, cmd):
@@ -81,8 +84,17 @@ def srv_answer(text, cmd):
     return shell.lt_answer([shell.lt_match(text, m.start(), 3, message='typo') for m in re.finditer('teh', text)])
 
 
+_shared = {}
+
+
 def call_event(ei):
     name, src, opts, ml = EVENTS[ei]
+    if opts.get('repl') == 'FILE':
+        # the replacement list as the command line tools read it; the same object is passed on every call
+        from yalafi import tex2txt
+        if 'repl' not in _shared:
+            _shared['repl'] = tex2txt.read_replacements('ymcrepl17.txt', encoding='utf-8')
+        opts = dict(opts, repl=_shared['repl'])
     old = sys.argv
     sys.argv = ['yalafi']       # warnings of the filter quote sys.argv[0]
     try:
@@ -173,6 +185,8 @@ class C17:
         cat.write_aux_files(d)
         with open(os.path.join(d, 'ymcdefs17.tex'), 'w') as f:
             f.write(LTINPUT_FILE)
+        with open(os.path.join(d, 'ymcrepl17.txt'), 'w') as f:
+            f.write('# comment\nso dass & sodass\n')
         os.chdir(d)
         fpm.preimport()
 
@@ -248,7 +262,10 @@ class C17:
         self.init_worker()
         d = os.path.join(core.scratch_dir(), 'srv17')
         os.makedirs(d, exist_ok=True)
-        seqs = [[6, 7, 1], [4, 5, 0], [2, 0, 8]]
+        for name in ('ymcdefs17.tex', 'ymcrepl17.txt'):
+            with open(name) as f, open(os.path.join(d, name), 'w') as g:
+                g.write(f.read())
+        seqs = [[6, 7, 1], [4, 5, 0], [2, 10, 10]]
         viol = []
         n = 0
         st = ctx['stats']['sets']
